@@ -43,7 +43,7 @@ func c06Symmetric(c *core.Ctx, idx int) {
 	if directed {
 		links, back = st.Links["mentees"], st.Links["mentors"]
 	}
-	pool := []string{"a", "b", "c", "d", "e", "f", "g"}
+	pool := []string{"a", "b", "c", "d", "\x05e", "f", "g"} // one id begins with the byte stored keys are tagged with
 	live := map[string]bool{}
 	pair := func(x, y string) [2]string {
 		if x > y && !directed {
@@ -172,6 +172,8 @@ func c06Symmetric(c *core.Ctx, idx int) {
 					}
 				}
 				sort.Strings(got)
+				sort.Strings(want)
+				sort.Strings(wantBack)
 				if gotBack := back.GetLinks(tx, id); directed {
 					sort.Strings(gotBack)
 					for _, o := range gotBack {
